@@ -215,6 +215,11 @@ class TcpConnection(
                 except rfc8323common.CloseConnection as e:
                     self._ctx._dispatch_error(self, e.args[0])
                     self._transport.close()
+                if self._transport.is_closing():
+                    # The connection was aborted over that message, or the
+                    # peer released or aborted it: whatever else is in the
+                    # spool is not processed any more.
+                    return
                 continue
 
             if self._remote_settings is None:
